@@ -159,7 +159,7 @@ func genC32(t *rapid.T) c32Case {
 			o.Schema = &s
 		}
 		c.H = fixZT(gen.Histogram(o).Draw(t, "h"))
-		if rapid.IntRange(0, 11).Draw(t, "lowcount") == 7 {
+		if rapid.IntRange(0, 11).Draw(t, "lowcount") == 7 && !math.IsNaN(gen.F(c.H.Sum)) {
 			// a count below what the buckets hold (Validate does not object): only the range laws apply
 			c.H.Count = gen.B(gen.F(c.H.Count) * 0.75)
 		}
@@ -441,7 +441,8 @@ func runC32(c c32Case, r *ev.Rec) error {
 	}
 	q1ok := !math.IsNaN(q1) && q1 >= 0 && q1 <= 1
 	q2ok := !math.IsNaN(q2) && q2 >= 0 && q2 <= 1
-	if q1ok && q2ok && q1 <= q2 && !math.IsNaN(qv[0]) && !math.IsNaN(qv[1]) && !leTol(qv[0], qv[1]) {
+	countOK := nanSum || math.Abs(total-h.Count) <= c32Tol*h.Count
+	if countOK && q1ok && q2ok && q1 <= q2 && !math.IsNaN(qv[0]) && !math.IsNaN(qv[1]) && !leTol(qv[0], qv[1]) {
 		// either branch is fine when both ranks sit on the same bucket boundary
 		if !(nearBoundary(bs, q1*h.Count, total) && nearBoundary(bs, q2*h.Count, total) && math.Abs(q2-q1)*h.Count <= 2*c32Tol*total) {
 			if nanSum {
